@@ -151,6 +151,7 @@ pub fn machinery_failure(msg: &str) -> ! {
 }
 
 static PANIC_MESSAGES: Mutex<Vec<String>> = Mutex::new(Vec::new());
+static THREAD_PANICS: Mutex<Vec<(std::thread::ThreadId, String)>> = Mutex::new(Vec::new());
 
 /// Installs a quiet panic hook that records messages (process wide).
 pub fn install_panic_hook() {
@@ -171,11 +172,33 @@ pub fn install_panic_hook() {
                 v.push(format!("{msg} @ {loc}"));
             }
         }
+        if let Ok(mut v) = THREAD_PANICS.lock() {
+            if v.len() < 100_000 {
+                v.push((std::thread::current().id(), format!("{msg} @ {loc}")));
+            }
+        }
     }));
 }
 
 pub fn take_panics() -> Vec<String> {
     std::mem::take(&mut *PANIC_MESSAGES.lock().unwrap())
+}
+
+/// Panics recorded on the calling thread since the last call (a whole-node simulation runs all
+/// its tasks on the thread that drives its current-thread runtime).
+pub fn take_thread_panics() -> Vec<String> {
+    let me = std::thread::current().id();
+    let mut g = THREAD_PANICS.lock().unwrap();
+    let mut mine = Vec::new();
+    g.retain(|(t, m)| {
+        if *t == me {
+            mine.push(m.clone());
+            false
+        } else {
+            true
+        }
+    });
+    mine
 }
 
 pub fn panics_seen() -> usize {
